@@ -117,7 +117,52 @@ func c01Tree(t *rapid.T) *hx.Node {
 	return tree
 }
 
+// genC01Attack: classic escape shapes, instantiated with the names that exist around the root.
+// "{OUTER}" is replaced by the absolute path of the directory holding the root at run time.
+func genC01Attack(t *rapid.T, rootName string, l string) string {
+	sib := rapid.SampledFrom([]string{rootName + "-other", rootName + "x", rootName + ".bak", "unrelated", ""}).Draw(t, l+"-sib")
+	inner := rapid.SampledFrom([]string{"", c01Marker + "_a.txt", "sub/" + c01Marker + "_b", c01Marker + "_c.bin", c01Marker + "_d", c01Marker + "_e", "GAME", "PS3ISO/g.iso", "PS3ISO", "new_" + l}).Draw(t, l+"-inner")
+	virt := rapid.SampledFrom([]string{"***DVD***", "***PS3***"}).Draw(t, l+"-virt")
+	ups := strings.Repeat("../", rapid.IntRange(1, 4).Draw(t, l+"-ups"))
+	tail := sib
+	if inner != "" {
+		tail = sib + "/" + inner
+	}
+	if sib == "" {
+		tail = rapid.SampledFrom([]string{c01Marker + "_top.txt", "REDKEY/g.dkey", "PS3ISO/g.dkey", ""}).Draw(t, l+"-top")
+	}
+	switch rapid.IntRange(0, 11).Draw(t, l+"-tpl") {
+	case 0:
+		return "/" + ups + tail
+	case 1:
+		return ups + tail
+	case 2:
+		return "/" + virt + "/" + ups + tail
+	case 3:
+		return "/" + virt + ups + tail // prefix glued to the dots
+	case 4:
+		return "/" + virt + "/sub/" + ups + "../" + tail
+	case 5:
+		return "/PS3ISO/../" + ups + sib + "/PS3ISO/g.iso"
+	case 6:
+		return "/sub/subsub/" + ups + "../../" + tail
+	case 7:
+		return "/" + ups + "{OUTER}/" + tail
+	case 8:
+		return "{OUTER}/" + tail
+	case 9:
+		return "/" + virt + "/" + ups + "{OUTER}/" + tail
+	case 10:
+		return "/" + rootName + "/../../" + tail
+	default:
+		return "/.//" + ups + "/" + tail + "/"
+	}
+}
+
 func genC01Path(t *rapid.T, rootName string, pool hx.PathPool, l string) string {
+	if rapid.IntRange(0, 4).Draw(t, l+"-attack") == 0 {
+		return genC01Attack(t, rootName, l)
+	}
 	segs := []string{"..", "..", "..", ".", "", rootName, rootName + "-other", rootName + "x", rootName + ".bak", "unrelated", "PS3ISO", "REDKEY", "GAME", "sub", "subsub",
 		"inside.txt", "g.iso", "g.dkey", "X.BIN", c01Marker + "_a.txt", c01Marker + "_top.txt", c01Marker + "_g", "***DVD***", "***PS3***", "CLOSEFILE", "deep", "new_" + l}
 	n := rapid.IntRange(1, 7).Draw(t, l+"-nseg")
@@ -144,15 +189,20 @@ func genC01Path(t *rapid.T, rootName string, pool hx.PathPool, l string) string 
 	if rapid.IntRange(0, 9).Draw(t, l+"-dbl") == 0 {
 		sep = "//"
 	}
+	// sometimes two neighbouring segments are glued together without a separator ("***DVD***..", "root-other..")
+	if len(parts) >= 2 && rapid.IntRange(0, 5).Draw(t, l+"-glue") == 0 {
+		i := rapid.IntRange(0, len(parts)-2).Draw(t, l+"-gluepos")
+		parts = append(append(append([]string{}, parts[:i]...), parts[i]+parts[i+1]), parts[i+2:]...)
+	}
 	p := strings.Join(parts, sep)
 	switch rapid.IntRange(0, 5).Draw(t, l+"-lead") {
 	case 0:
 	case 1:
 		p = "/" + p + "/"
 	case 2:
-		p = "/***DVD***/" + p
+		p = "/***DVD***" + rapid.SampledFrom([]string{"/", "/", "/", ""}).Draw(t, l+"-vsep") + p
 	case 3:
-		p = "/***PS3***/" + p
+		p = "/***PS3***" + rapid.SampledFrom([]string{"/", "/", "/", ""}).Draw(t, l+"-vsep") + p
 	default:
 		p = "/" + p
 	}
@@ -348,6 +398,13 @@ func runC01Once(c c01Case, st *hx.Stats) error {
 	before, err := sentinelSnapshot(outer, c.RootName)
 	if err != nil {
 		return err
+	}
+	// instantiate absolute-path injections with this world's location
+	c.Reqs = append([]hx.Req{}, c.Reqs...)
+	for i := range c.Reqs {
+		if strings.Contains(string(c.Reqs[i].Path), "{OUTER}") {
+			c.Reqs[i].Path = hx.BStr(strings.ReplaceAll(string(c.Reqs[i].Path), "{OUTER}", strings.TrimPrefix(outer, "/")))
+		}
 	}
 	_, recv, err := c01Play(tg.Addr, root, c, st)
 	if err != nil {
